@@ -156,6 +156,8 @@ func runBatch(self string, p *Prop, seed int64, tier string, b batch, base strin
 		case timedOut:
 			co.Res = Result{Verdict: Inconclusive, Msg: "wall-clock watchdog (20 min per batch) fired"}
 			inconclusive++
+		case (open.Ev == "cpu" || open.Ev == "mem") && p.BudgetOutOfDomain:
+			co.Res = Result{Verdict: Skip, Counters: map[string]int64{"skipped_budget_overruns_" + open.Ev: 1}, Reports: []string{fmt.Sprintf("case %d (input hash %016x) exhausted the %s budget; not judged by this property", open.I, HashBytes(open.Input), open.Ev)}}
 		case open.Ev == "cpu":
 			co.Res = Result{Verdict: Violation, Sig: "cpu-budget", Msg: fmt.Sprintf("CPU budget exceeded (%.0f s consumed)", open.CPU), Stack: mainGoroutine(string(stderr))}
 		case open.Ev == "mem":
@@ -353,9 +355,11 @@ func DriverMain(self, propID, tier string, seed int64) int {
 				failed := o.Res.Verdict == Violation
 				switch f.Status {
 				case "open":
-					if failed {
-						addKnown(f)
-					} else {
+					// every listed open finding is announced; one whose witness did not fail in this run
+					// (fixed meanwhile, or dependent on map iteration order / scheduling) is also recorded
+					// as not reproduced in the evidence
+					addKnown(f)
+					if !failed {
 						stale = append(stale, f.ID)
 					}
 				case "fixed":
